@@ -220,3 +220,17 @@ def run(F, R):
             "no member follows a closing brace without a comma",
             "in the rendering with every optional block present the member(s) %s follow a `}` without a separating comma: configuring both blocks yields a script that does "
             "not parse, so none of the configured values is in effect" % sorted(set(missing)))
+
+    R.rule("R34.5", "the default escaper of the compiled template is the HTML escaper: in the Template expansion of GraphiQLSource every interpolation without an "
+                    "explicit filter is wrapped in askama's AutoEscaper with the `Html` escaper (an `escape = \"none\"` on the derive, or a `.txt` template path, "
+                    "would compile the same template text with no escaping at all — R34.2 reads the text and would not notice)")
+    tb = [b for b in F.bodies.values() if "graphiql_source" in b.defp and (b.impl_trait or "").endswith("Template") and b.name.startswith("render_into")]
+    R.floor("R34.5", "Template expansion bodies", len(tb), 1)
+    esc = [c for b in tb for x in F.with_nested(b) for c in x.calls() if c.callee and re.search(r"askama::filters::escape::\{impl#\d+\}::new$", c.callee)]
+    html = [c for c in esc if any(g.endswith("filters::Html") for g in c.generics)]
+    plain = [e for e in ev if e[0] == "expr" and not e[2]]
+    R.floor("R34.5", "auto-escape sites in the expansion", len(esc), 5)
+    R.check(len(html) == len(esc) and len(esc) >= 5, "R34.5", "template:auto-escaper-is-Html", tb[0].where() if tb else "-",
+            "%d auto-escaped interpolations, all with the Html escaper (template has %d unfiltered interpolations)" % (len(html), len(plain)),
+            "only %d of %d auto-escape sites use the Html escaper (template has %d unfiltered interpolations): configured values are written into the page without "
+            "escaping" % (len(html), len(esc), len(plain)))
